@@ -243,7 +243,7 @@ func runCase(run *lib.Run, c int64, base string) {
 	cc := genCase(c)
 	dir := filepath.Join(base, fmt.Sprintf("c%d", c))
 	os.MkdirAll(dir, 0755)
-	defer os.RemoveAll(dir)
+	defer lib.RemoveLater(dir)
 	run.Eval()
 	var net *sim.Net
 	var m *monitor
